@@ -9,11 +9,23 @@ use std::str::FromStr;
 #[derive(Clone, Copy, PartialEq)]
 enum T { Bool, I8, U8, I16, U16, I32, U32, I64, U64, F32, F64 }
 
-fn any_target() -> T {
-    let k: u8 = kani::any();
-    kani::assume(k < 11);
-    match k { 0 => T::Bool, 1 => T::I8, 2 => T::U8, 3 => T::I16, 4 => T::U16, 5 => T::I32, 6 => T::U32, 7 => T::I64, 8 => T::U64, 9 => T::F32, _ => T::F64 }
+/// A symbolic target type made every harness exceed 4 minutes; with a concrete target one call costs 2-4 s.
+/// The harnesses therefore call the checker once per target type, as straight-line code (no loop, no bound).
+/// (a closure called eleven times was measured > 300 s where the same calls written out take 5 s, so the
+/// expansion is textual)
+macro_rules! for_all_targets {
+    ($f:ident ( $($a:expr),* )) => {{
+        $f($($a,)* T::Bool); $f($($a,)* T::I8); $f($($a,)* T::U8); $f($($a,)* T::I16); $f($($a,)* T::U16); $f($($a,)* T::I32);
+        $f($($a,)* T::U32); $f($($a,)* T::I64); $f($($a,)* T::U64); $f($($a,)* T::F32); $f($($a,)* T::F64);
+    }};
 }
+macro_rules! for_int_targets {
+    ($f:ident ( $($a:expr),* )) => {{
+        $f($($a,)* T::I8); $f($($a,)* T::U8); $f($($a,)* T::I16); $f($($a,)* T::U16); $f($($a,)* T::I32); $f($($a,)* T::U32);
+        $f($($a,)* T::I64); $f($($a,)* T::U64);
+    }};
+}
+fn is_empty(v: &Variant) -> bool { matches!(v, Variant::Empty) }
 fn type_id(t: T) -> VariantTypeId {
     match t {
         T::Bool => VariantTypeId::Boolean, T::I8 => VariantTypeId::SByte, T::U8 => VariantTypeId::Byte,
@@ -57,14 +69,14 @@ fn must_succeed(s: T, t: T) -> bool {
 }
 
 /// contract of `convert` for an integer (or boolean) source denoting `x`
-fn check_convert_int(src: Variant, s: T, x: i128, as_f32: f32, as_f64: f64) {
-    let t = any_target();
+fn check_convert_int(src: &Variant, s: T, x: i128, as_f32: f32, as_f64: f64, t: T) {
     let r = src.convert(type_id(t));
     if s == t {
-        assert!(r == src, "C06.convert.same_type_is_identity");
+        assert!(int_of(&r) == Some(x), "C06.convert.same_type_is_identity");
+        std::mem::forget(r);
         return;
     }
-    assert!(r == Variant::Empty || is_type(&r, t), "C06.convert.result_has_target_type_or_empty");
+    assert!(is_empty(&r) || is_type(&r, t), "C06.convert.result_has_target_type_or_empty");
     match t {
         T::F32 => if let Variant::Float(y) = r { assert!(y == as_f32, "C06.convert.int_to_float_nearest"); },
         T::F64 => if let Variant::Double(y) = r { assert!(y == as_f64, "C06.convert.int_to_double_nearest"); },
@@ -75,35 +87,32 @@ fn check_convert_int(src: Variant, s: T, x: i128, as_f32: f32, as_f64: f64) {
                 assert!(y == x, "C06.convert.integer_value_preserved");
             }
             if x < lo || x > hi {
-                assert!(r == Variant::Empty, "C06.convert.out_of_range_yields_no_result");
+                assert!(is_empty(&r), "C06.convert.out_of_range_yields_no_result");
             } else if must_succeed(s, t) {
-                assert!(r != Variant::Empty, "C06.convert.widening_succeeds");
+                assert!(!is_empty(&r), "C06.convert.widening_succeeds");
             }
         }
     }
-    kani::cover!(range(t).is_some() && r != Variant::Empty, "C06.cover.int_result");
-    kani::cover!(range(t).is_some() && r == Variant::Empty, "C06.cover.no_result");
+    std::mem::forget(r); // scalar or empty by the assertion above; skips the drop glue of every other variant
 }
 
 /// contract of `cast` for an integer source denoting `x`, integer targets
-fn check_cast_int(src: Variant, s: T, x: i128) {
-    let t = any_target();
-    kani::assume(range(t).is_some() && s != t);
+fn check_cast_int(src: &Variant, s: T, x: i128, t: T) {
+    if s == t { return; }
     let r = src.cast(type_id(t));
     let (lo, hi) = range(t).unwrap();
-    assert!(r == Variant::Empty || is_type(&r, t), "C06.cast.result_has_target_type_or_empty");
+    assert!(is_empty(&r) || is_type(&r, t), "C06.cast.result_has_target_type_or_empty");
     if let Some(y) = int_of(&r) {
         assert!(y == x, "C06.cast.integer_value_preserved");
     }
     if x < lo || x > hi {
-        assert!(r == Variant::Empty, "C06.cast.out_of_range_yields_no_result");
+        assert!(is_empty(&r), "C06.cast.out_of_range_yields_no_result");
     }
-    kani::cover!(r != Variant::Empty, "C06.cover.cast_result");
-    kani::cover!(r == Variant::Empty, "C06.cover.cast_no_result");
+    std::mem::forget(r); // scalar or empty by the first assertion; skips the drop glue of every other variant
 }
 
 macro_rules! int_harness {
-    ($conv:ident, $cast:ident, $ty:ty, $variant:ident, $t:expr) => {
+    ($conv:ident, $ty:ty, $variant:ident, $t:expr) => {
         #[kani::proof]
         #[kani::stub(<NodeId as FromStr>::from_str, stub_node_id_from_str)]
         #[kani::stub(<ExpandedNodeId as FromStr>::from_str, stub_expanded_node_id_from_str)]
@@ -112,28 +121,20 @@ macro_rules! int_harness {
         #[kani::stub(std::fmt::format, stub_format)]
         pub fn $conv() {
             let x: $ty = kani::any();
-            check_convert_int(Variant::$variant(x), $t, x as i128, x as f32, x as f64);
-        }
-        #[kani::proof]
-        #[kani::stub(<NodeId as FromStr>::from_str, stub_node_id_from_str)]
-        #[kani::stub(<ExpandedNodeId as FromStr>::from_str, stub_expanded_node_id_from_str)]
-        #[kani::stub(<Guid as FromStr>::from_str, stub_guid_from_str)]
-        #[kani::stub(<DateTime as FromStr>::from_str, stub_date_time_from_str)]
-        #[kani::stub(std::fmt::format, stub_format)]
-        pub fn $cast() {
-            let x: $ty = kani::any();
-            check_cast_int(Variant::$variant(x), $t, x as i128);
+            let src = Variant::$variant(x);
+            for_all_targets!(check_convert_int(&src, $t, x as i128, x as f32, x as f64));
+            kani::cover!(x as i128 > i8::MAX as i128 || (x as i128) < 0, "C06.cover.value_outside_some_range");
         }
     };
 }
-int_harness!(c06_convert_i8, c06_cast_i8, i8, SByte, T::I8);
-int_harness!(c06_convert_u8, c06_cast_u8, u8, Byte, T::U8);
-int_harness!(c06_convert_i16, c06_cast_i16, i16, Int16, T::I16);
-int_harness!(c06_convert_u16, c06_cast_u16, u16, UInt16, T::U16);
-int_harness!(c06_convert_i32, c06_cast_i32, i32, Int32, T::I32);
-int_harness!(c06_convert_u32, c06_cast_u32, u32, UInt32, T::U32);
-int_harness!(c06_convert_i64, c06_cast_i64, i64, Int64, T::I64);
-int_harness!(c06_convert_u64, c06_cast_u64, u64, UInt64, T::U64);
+int_harness!(c06_convert_i8, i8, SByte, T::I8);
+int_harness!(c06_convert_u8, u8, Byte, T::U8);
+int_harness!(c06_convert_i16, i16, Int16, T::I16);
+int_harness!(c06_convert_u16, u16, UInt16, T::U16);
+int_harness!(c06_convert_i32, i32, Int32, T::I32);
+int_harness!(c06_convert_u32, u32, UInt32, T::U32);
+int_harness!(c06_convert_i64, i64, Int64, T::I64);
+int_harness!(c06_convert_u64, u64, UInt64, T::U64);
 
 #[kani::proof]
 #[kani::stub(<NodeId as FromStr>::from_str, stub_node_id_from_str)]
@@ -143,12 +144,18 @@ int_harness!(c06_convert_u64, c06_cast_u64, u64, UInt64, T::U64);
 #[kani::stub(std::fmt::format, stub_format)]
 pub fn c06_convert_bool() {
     let b: bool = kani::any();
-    let t = any_target();
-    let r = Variant::Boolean(b).convert(type_id(t));
-    assert!(r == Variant::Empty || is_type(&r, t), "C06.convert.result_has_target_type_or_empty");
-    if let Some(y) = int_of(&r) { assert!(y == b as i128, "C06.convert.bool_is_0_or_1"); }
-    if let Variant::Float(y) = r { assert!(y == (b as u8) as f32, "C06.convert.bool_is_0_or_1"); }
-    if let Variant::Double(y) = r { assert!(y == (b as u8) as f64, "C06.convert.bool_is_0_or_1"); }
+    let src = Variant::Boolean(b);
+    for_all_targets!(check_convert_bool(&src, b));
+}
+fn check_convert_bool(src: &Variant, b: bool, t: T) {
+    {
+        let r = src.convert(type_id(t));
+        assert!(is_empty(&r) || is_type(&r, t), "C06.convert.result_has_target_type_or_empty");
+        if let Some(y) = int_of(&r) { assert!(y == b as i128, "C06.convert.bool_is_0_or_1"); }
+        if let Variant::Float(y) = r { assert!(y == (b as u8) as f32, "C06.convert.bool_is_0_or_1"); }
+        if let Variant::Double(y) = r { assert!(y == (b as u8) as f64, "C06.convert.bool_is_0_or_1"); }
+        std::mem::forget(r);
+    }
 }
 
 /// convert from floating point sources: Float -> Double is exact; nothing else may change the number
@@ -160,16 +167,23 @@ pub fn c06_convert_bool() {
 #[kani::stub(std::fmt::format, stub_format)]
 pub fn c06_convert_float() {
     let x: f32 = kani::any();
-    let t = any_target();
-    kani::assume(t != T::F32);
-    let r = Variant::Float(x).convert(type_id(t));
-    assert!(r == Variant::Empty || is_type(&r, t), "C06.convert.result_has_target_type_or_empty");
-    if let Variant::Double(y) = r {
-        assert!(y.to_bits() == (x as f64).to_bits(), "C06.convert.float_to_double_exact");
-    }
-    if t == T::F64 { assert!(r != Variant::Empty, "C06.convert.widening_succeeds"); }
-    if let Some(y) = int_of(&r) {
-        assert!(y as f64 == x as f64 && (y as i128) == (x as f64) as i128, "C06.convert.float_to_int_same_number");
+    let src = Variant::Float(x);
+    for_all_targets!(check_convert_f32(&src, x));
+    kani::cover!(x.is_nan(), "C06.cover.nan");
+}
+fn check_convert_f32(src: &Variant, x: f32, t: T) {
+    {
+        if t == T::F32 { return; }
+        let r = src.convert(type_id(t));
+        assert!(is_empty(&r) || is_type(&r, t), "C06.convert.result_has_target_type_or_empty");
+        if let Variant::Double(y) = r {
+            assert!(y.to_bits() == (x as f64).to_bits(), "C06.convert.float_to_double_exact");
+        }
+        if t == T::F64 { assert!(!is_empty(&r), "C06.convert.widening_succeeds"); }
+        if let Some(y) = int_of(&r) {
+            assert!(y as f64 == x as f64 && (y as i128) == (x as f64) as i128, "C06.convert.float_to_int_same_number");
+        }
+        std::mem::forget(r);
     }
 }
 #[kani::proof]
@@ -180,73 +194,227 @@ pub fn c06_convert_float() {
 #[kani::stub(std::fmt::format, stub_format)]
 pub fn c06_convert_double() {
     let x: f64 = kani::any();
-    let t = any_target();
-    kani::assume(t != T::F64);
-    let r = Variant::Double(x).convert(type_id(t));
-    assert!(r == Variant::Empty || is_type(&r, t), "C06.convert.result_has_target_type_or_empty");
-    if let Variant::Float(y) = r {
-        assert!(y.to_bits() == (x as f32).to_bits(), "C06.convert.double_to_float_nearest");
-    }
-    if let Some(y) = int_of(&r) {
-        assert!(y as f64 == x && (y as i128) == x as i128, "C06.convert.double_to_int_same_number");
+    let src = Variant::Double(x);
+    for_all_targets!(check_convert_f64(&src, x));
+    kani::cover!(x.is_nan(), "C06.cover.nan");
+}
+fn check_convert_f64(src: &Variant, x: f64, t: T) {
+    {
+        if t == T::F64 { return; }
+        let r = src.convert(type_id(t));
+        assert!(is_empty(&r) || is_type(&r, t), "C06.convert.result_has_target_type_or_empty");
+        if let Variant::Float(y) = r {
+            assert!(y.to_bits() == (x as f32).to_bits(), "C06.convert.double_to_float_nearest");
+        }
+        if let Some(y) = int_of(&r) {
+            assert!(y as f64 == x && (y as i128) == x as i128, "C06.convert.double_to_int_same_number");
+        }
+        std::mem::forget(r);
     }
 }
 
-/// contract of `cast` float -> integer: the result is one of the integers nearest to x (both neighbours are
-/// accepted on an exact tie) and there is no result exactly when the rounded value is out of range / x is not finite
+/// (lowest value, highest value + 1) of an integer target as exactly representable doubles
+fn frange(t: T) -> (f64, f64) {
+    match t {
+        T::I8 => (-128.0, 128.0), T::U8 => (0.0, 256.0),
+        T::I16 => (-32768.0, 32768.0), T::U16 => (0.0, 65536.0),
+        T::I32 => (-2147483648.0, 2147483648.0), T::U32 => (0.0, 4294967296.0),
+        T::I64 => (-9223372036854775808.0, 9223372036854775808.0), T::U64 => (0.0, 18446744073709551616.0),
+        _ => (0.0, 0.0),
+    }
+}
+/// the value of an integer variant as a double (exact below 2^53)
+fn f64_of(v: &Variant) -> Option<f64> {
+    Some(match v {
+        Variant::SByte(x) => *x as f64, Variant::Byte(x) => *x as f64,
+        Variant::Int16(x) => *x as f64, Variant::UInt16(x) => *x as f64,
+        Variant::Int32(x) => *x as f64, Variant::UInt32(x) => *x as f64,
+        Variant::Int64(x) => *x as f64, Variant::UInt64(x) => *x as f64,
+        _ => return None,
+    })
+}
+/// contract of `cast` float -> integer, stated in the float domain (no wide integer arithmetic, which CBMC
+/// could not decide within 400 s): the result is an integer within 0.5 of x (either neighbour on an exact tie),
+/// and there is no result exactly when the rounded value is out of range or x is not finite.
 fn check_cast_float(r: Variant, x: f64, t: T) {
-    let (lo, hi) = range(t).unwrap();
-    assert!(r == Variant::Empty || is_type(&r, t), "C06.cast.result_has_target_type_or_empty");
+    let (lo, hi1) = frange(t);
+    assert!(is_empty(&r) || is_type(&r, t), "C06.cast.result_has_target_type_or_empty");
     if !x.is_finite() {
-        assert!(r == Variant::Empty, "C06.cast.nan_inf_yield_no_result");
+        assert!(is_empty(&r), "C06.cast.nan_inf_yield_no_result");
+        std::mem::forget(r);
         return;
     }
-    if x.abs() >= 1.0e20 {
-        // beyond every 64-bit range
-        assert!(r == Variant::Empty, "C06.cast.out_of_range_yields_no_result");
-        return;
+    const TWO52: f64 = 4503599627370496.0;
+    match f64_of(&r) {
+        Some(y) => {
+            if x.abs() < TWO52 {
+                // y is integral and at most 2^52 in magnitude, so y - 0.5 and y + 0.5 are computed exactly
+                assert!(y - 0.5 <= x && x <= y + 0.5, "C06.cast.rounds_to_nearest");
+            } else {
+                // x is integral; the result must be that integer (compared as integers, the double
+                // image of a 64-bit integer is not injective)
+                let same = match r {
+                    Variant::Int64(v) => v == x as i64 && x >= lo && x < hi1,
+                    Variant::UInt64(v) => v == x as u64 && x >= lo && x < hi1,
+                    _ => false, // narrower types cannot hold |x| >= 2^52
+                };
+                assert!(same, "C06.cast.rounds_to_nearest");
+            }
+        }
+        None => {
+            // no result only when a nearest integer is out of range
+            let low_out = if lo - 0.5 < lo { x <= lo - 0.5 } else { x < lo };
+            let high_out = x >= hi1 - 0.5;
+            assert!(low_out || high_out, "C06.cast.no_result_only_when_rounded_value_out_of_range");
+        }
     }
-    // the nearest integers: floor(x + 0.5) and ceil(x - 0.5) (equal unless x is an exact tie);
-    // |x| >= 2^53 is already integral and x +- 0.5 rounds back to x
-    let up = (x + 0.5).floor();
-    let dn = (x - 0.5).ceil();
-    let up_i = up as i128; // saturating cast; |up| < 2^127 always holds for f32/f64 inputs below 2^127
-    let dn_i = dn as i128;
-    let up_in = up_i >= lo && up_i <= hi;
-    let dn_in = dn_i >= lo && dn_i <= hi;
-    match int_of(&r) {
-        Some(y) => assert!(y == up_i || y == dn_i, "C06.cast.rounds_to_nearest"),
-        None => assert!(!up_in || !dn_in, "C06.cast.no_result_only_when_rounded_value_out_of_range"),
+    // clearly out of range => no result
+    let below = if lo - 1.0 < lo { x <= lo - 1.0 } else { x < lo };
+    if below || x >= hi1 {
+        assert!(is_empty(&r), "C06.cast.out_of_range_yields_no_result");
     }
-    if !up_in && !dn_in {
-        assert!(r == Variant::Empty, "C06.cast.out_of_range_yields_no_result");
-    }
-    kani::cover!(x < -1.5 && int_of(&r).is_some(), "C06.cover.negative_rounded");
-    kani::cover!(r == Variant::Empty, "C06.cover.cast_no_result");
+    std::mem::forget(r);
 }
-#[kani::proof]
-#[kani::stub(<NodeId as FromStr>::from_str, stub_node_id_from_str)]
-#[kani::stub(<ExpandedNodeId as FromStr>::from_str, stub_expanded_node_id_from_str)]
-#[kani::stub(<Guid as FromStr>::from_str, stub_guid_from_str)]
-#[kani::stub(<DateTime as FromStr>::from_str, stub_date_time_from_str)]
-#[kani::stub(std::fmt::format, stub_format)]
-pub fn c06_cast_double() {
-    let x: f64 = kani::any();
-    let t = any_target();
-    kani::assume(range(t).is_some());
-    let r = Variant::Double(x).cast(type_id(t));
-    check_cast_float(r, x, t);
+
+/// `f64::round` / `f32::round` by contract: CBMC's bit-level model of round() made every float cast harness
+/// exceed 300 s. The stub returns any value satisfying the specification of round-half-away-from-zero
+/// (integral, within 0.5 of x, away from zero on ties; NaN and infinities are returned unchanged), so the
+/// harness proves the code around the call against every behaviour the specification allows.
+/// Assumption recorded in the evidence: std's round() meets this specification.
+/// r is x rounded half away from zero, stated with exact operations only: r is integral and below 2^52 in
+/// magnitude, so r - 0.5 and r + 0.5 are computed exactly (a formulation through (r - x).abs() is not exact:
+/// 1.0 - 0.49999999999999994 rounds to 0.5)
+fn is_round_of(r: f64, x: f64) -> bool {
+    ((r as i64) as f64) == r
+        && (r - 0.5 < x || (r - 0.5 == x && r > 0.0))
+        && (x < r + 0.5 || (x == r + 0.5 && r < 0.0))
 }
-#[kani::proof]
-#[kani::stub(<NodeId as FromStr>::from_str, stub_node_id_from_str)]
-#[kani::stub(<ExpandedNodeId as FromStr>::from_str, stub_expanded_node_id_from_str)]
-#[kani::stub(<Guid as FromStr>::from_str, stub_guid_from_str)]
-#[kani::stub(<DateTime as FromStr>::from_str, stub_date_time_from_str)]
-#[kani::stub(std::fmt::format, stub_format)]
-pub fn c06_cast_float() {
-    let x: f32 = kani::any();
-    let t = any_target();
-    kani::assume(range(t).is_some());
-    let r = Variant::Float(x).cast(type_id(t));
-    check_cast_float(r, x as f64, t);
+pub fn stub_round64(x: f64) -> f64 {
+    if !x.is_finite() { return x; }
+    const TWO52: f64 = 4503599627370496.0;
+    if x.abs() >= TWO52 { return x; }
+    let r: f64 = kani::any();
+    kani::assume(r.is_finite() && r.abs() <= TWO52);
+    kani::assume(is_round_of(r, x));
+    r
 }
+pub fn stub_round32(x: f32) -> f32 {
+    if !x.is_finite() { return x; }
+    const TWO23: f32 = 8388608.0;
+    if x.abs() >= TWO23 { return x; }
+    let r: f32 = kani::any();
+    kani::assume(r.is_finite() && r.abs() <= TWO23);
+    kani::assume(is_round_of(r as f64, x as f64));
+    r
+}
+
+// float -> integer casts: one harness per (source, target) pair (all eight targets in one harness exceed 400 s)
+macro_rules! float_cast_harness {
+    ($name:ident, $ty:ty, $variant:ident, $t:expr) => {
+        #[kani::proof]
+        #[kani::stub(<NodeId as FromStr>::from_str, stub_node_id_from_str)]
+        #[kani::stub(<ExpandedNodeId as FromStr>::from_str, stub_expanded_node_id_from_str)]
+        #[kani::stub(<Guid as FromStr>::from_str, stub_guid_from_str)]
+        #[kani::stub(<DateTime as FromStr>::from_str, stub_date_time_from_str)]
+        #[kani::stub(std::fmt::format, stub_format)]
+        #[kani::stub(f64::round, stub_round64)]
+        #[kani::stub(f32::round, stub_round32)]
+        pub fn $name() {
+            let x: $ty = kani::any();
+            let src = Variant::$variant(x);
+            check_cast_float(src.cast(type_id($t)), x as f64, $t);
+            kani::cover!(x < -1.5 && x > -100.0, "C06.cover.negative_in_range");
+            kani::cover!(x.is_nan(), "C06.cover.nan");
+        }
+    };
+}
+float_cast_harness!(c06_cast_double_i8, f64, Double, T::I8);
+float_cast_harness!(c06_cast_double_u8, f64, Double, T::U8);
+float_cast_harness!(c06_cast_double_i16, f64, Double, T::I16);
+float_cast_harness!(c06_cast_double_u16, f64, Double, T::U16);
+float_cast_harness!(c06_cast_double_i32, f64, Double, T::I32);
+float_cast_harness!(c06_cast_double_u32, f64, Double, T::U32);
+float_cast_harness!(c06_cast_double_i64, f64, Double, T::I64);
+float_cast_harness!(c06_cast_double_u64, f64, Double, T::U64);
+float_cast_harness!(c06_cast_float_i8, f32, Float, T::I8);
+float_cast_harness!(c06_cast_float_u8, f32, Float, T::U8);
+float_cast_harness!(c06_cast_float_i16, f32, Float, T::I16);
+float_cast_harness!(c06_cast_float_u16, f32, Float, T::U16);
+float_cast_harness!(c06_cast_float_i32, f32, Float, T::I32);
+float_cast_harness!(c06_cast_float_u32, f32, Float, T::U32);
+float_cast_harness!(c06_cast_float_i64, f32, Float, T::I64);
+float_cast_harness!(c06_cast_float_u64, f32, Float, T::U64);
+
+// integer -> integer casts: one (source, target) pair per harness (two widening targets in one harness exceed 200 s)
+macro_rules! int_cast_harness {
+    ($name:ident, $ty:ty, $variant:ident, $s:expr, $t:expr) => {
+        #[kani::proof]
+        #[kani::stub(<NodeId as FromStr>::from_str, stub_node_id_from_str)]
+        #[kani::stub(<ExpandedNodeId as FromStr>::from_str, stub_expanded_node_id_from_str)]
+        #[kani::stub(<Guid as FromStr>::from_str, stub_guid_from_str)]
+        #[kani::stub(<DateTime as FromStr>::from_str, stub_date_time_from_str)]
+        #[kani::stub(std::fmt::format, stub_format)]
+        #[kani::unwind(2)]
+        pub fn $name() {
+            let x: $ty = kani::any();
+            let src = Variant::$variant(x);
+            check_cast_int(&src, $s, x as i128, $t);
+        }
+    };
+}
+int_cast_harness!(c06_cast_i8_u8, i8, SByte, T::I8, T::U8);
+int_cast_harness!(c06_cast_i8_i16, i8, SByte, T::I8, T::I16);
+int_cast_harness!(c06_cast_i8_u16, i8, SByte, T::I8, T::U16);
+int_cast_harness!(c06_cast_i8_i32, i8, SByte, T::I8, T::I32);
+int_cast_harness!(c06_cast_i8_u32, i8, SByte, T::I8, T::U32);
+int_cast_harness!(c06_cast_i8_i64, i8, SByte, T::I8, T::I64);
+int_cast_harness!(c06_cast_i8_u64, i8, SByte, T::I8, T::U64);
+int_cast_harness!(c06_cast_u8_i8, u8, Byte, T::U8, T::I8);
+int_cast_harness!(c06_cast_u8_i16, u8, Byte, T::U8, T::I16);
+int_cast_harness!(c06_cast_u8_u16, u8, Byte, T::U8, T::U16);
+int_cast_harness!(c06_cast_u8_i32, u8, Byte, T::U8, T::I32);
+int_cast_harness!(c06_cast_u8_u32, u8, Byte, T::U8, T::U32);
+int_cast_harness!(c06_cast_u8_i64, u8, Byte, T::U8, T::I64);
+int_cast_harness!(c06_cast_u8_u64, u8, Byte, T::U8, T::U64);
+int_cast_harness!(c06_cast_i16_i8, i16, Int16, T::I16, T::I8);
+int_cast_harness!(c06_cast_i16_u8, i16, Int16, T::I16, T::U8);
+int_cast_harness!(c06_cast_i16_u16, i16, Int16, T::I16, T::U16);
+int_cast_harness!(c06_cast_i16_i32, i16, Int16, T::I16, T::I32);
+int_cast_harness!(c06_cast_i16_u32, i16, Int16, T::I16, T::U32);
+int_cast_harness!(c06_cast_i16_i64, i16, Int16, T::I16, T::I64);
+int_cast_harness!(c06_cast_i16_u64, i16, Int16, T::I16, T::U64);
+int_cast_harness!(c06_cast_u16_i8, u16, UInt16, T::U16, T::I8);
+int_cast_harness!(c06_cast_u16_u8, u16, UInt16, T::U16, T::U8);
+int_cast_harness!(c06_cast_u16_i16, u16, UInt16, T::U16, T::I16);
+int_cast_harness!(c06_cast_u16_i32, u16, UInt16, T::U16, T::I32);
+int_cast_harness!(c06_cast_u16_u32, u16, UInt16, T::U16, T::U32);
+int_cast_harness!(c06_cast_u16_i64, u16, UInt16, T::U16, T::I64);
+int_cast_harness!(c06_cast_u16_u64, u16, UInt16, T::U16, T::U64);
+int_cast_harness!(c06_cast_i32_i8, i32, Int32, T::I32, T::I8);
+int_cast_harness!(c06_cast_i32_u8, i32, Int32, T::I32, T::U8);
+int_cast_harness!(c06_cast_i32_i16, i32, Int32, T::I32, T::I16);
+int_cast_harness!(c06_cast_i32_u16, i32, Int32, T::I32, T::U16);
+int_cast_harness!(c06_cast_i32_u32, i32, Int32, T::I32, T::U32);
+int_cast_harness!(c06_cast_i32_i64, i32, Int32, T::I32, T::I64);
+int_cast_harness!(c06_cast_i32_u64, i32, Int32, T::I32, T::U64);
+int_cast_harness!(c06_cast_u32_i8, u32, UInt32, T::U32, T::I8);
+int_cast_harness!(c06_cast_u32_u8, u32, UInt32, T::U32, T::U8);
+int_cast_harness!(c06_cast_u32_i16, u32, UInt32, T::U32, T::I16);
+int_cast_harness!(c06_cast_u32_u16, u32, UInt32, T::U32, T::U16);
+int_cast_harness!(c06_cast_u32_i32, u32, UInt32, T::U32, T::I32);
+int_cast_harness!(c06_cast_u32_i64, u32, UInt32, T::U32, T::I64);
+int_cast_harness!(c06_cast_u32_u64, u32, UInt32, T::U32, T::U64);
+int_cast_harness!(c06_cast_i64_i8, i64, Int64, T::I64, T::I8);
+int_cast_harness!(c06_cast_i64_u8, i64, Int64, T::I64, T::U8);
+int_cast_harness!(c06_cast_i64_i16, i64, Int64, T::I64, T::I16);
+int_cast_harness!(c06_cast_i64_u16, i64, Int64, T::I64, T::U16);
+int_cast_harness!(c06_cast_i64_i32, i64, Int64, T::I64, T::I32);
+int_cast_harness!(c06_cast_i64_u32, i64, Int64, T::I64, T::U32);
+int_cast_harness!(c06_cast_i64_u64, i64, Int64, T::I64, T::U64);
+int_cast_harness!(c06_cast_u64_i8, u64, UInt64, T::U64, T::I8);
+int_cast_harness!(c06_cast_u64_u8, u64, UInt64, T::U64, T::U8);
+int_cast_harness!(c06_cast_u64_i16, u64, UInt64, T::U64, T::I16);
+int_cast_harness!(c06_cast_u64_u16, u64, UInt64, T::U64, T::U16);
+int_cast_harness!(c06_cast_u64_i32, u64, UInt64, T::U64, T::I32);
+int_cast_harness!(c06_cast_u64_u32, u64, UInt64, T::U64, T::U32);
+int_cast_harness!(c06_cast_u64_i64, u64, UInt64, T::U64, T::I64);
